@@ -3,8 +3,9 @@
 //! Reachable part: equivalence (in candidates and optimal cost) of "system {a} + user {ab}" with
 //! "system {a,ab}" for symbolic parameters, user words reported as user-lexicon entries, and
 //! clearing with `None`.  Loading a user lexicon from CSV text inside the solver needs
-//! `WordMapBuilder` (BTreeMap) + the crawdad builder, which do not fold; replacement of one CSV by
-//! another is therefore outside the claim.
+//! `WordMapBuilder` (BTreeMap) + the crawdad builder, which do not fold; `c08_replace_after_mapping`
+//! therefore runs the real `reset_user_lexicon_from_reader` / `parse_csv` with the trie builder
+//! (`Lexicon::from_entries`) stubbed by a natively pre-built trie.
 use crate::util::*;
 use crate::world::*;
 use vibrato::dictionary::Dictionary;
@@ -170,6 +171,136 @@ fn c08_clear_user_lexicon() {
     kani::cover!(w.num_tokens() == 2);
     core::mem::forget(w);
     core::mem::forget(t_owned);
+}
+
+/// Stands in for `Lexicon::from_entries` (whose `WordMap::new` runs the crawdad double-array
+/// builder, out of reach for CBMC) when the CSV has exactly one row with surface "b": the trie
+/// and postings are the ones the current builder produced natively for {b} (gen.rs), parameters
+/// and lexicon type are taken from the parsed entries as the real function does.
+#[cfg(kani)]
+pub fn stub_from_entries_b(entries: &[RawWordEntry], lex_type: LexType) -> vibrato::errors::Result<Lexicon> {
+    assert!(entries.len() == 1, "the stub covers one-row user lexicons only");
+    assert!(entries[0].surface.len() == 1 && entries[0].surface.as_bytes()[0] == 2, "the stub covers the surface \"b\" only");
+    let mut params = Vec::with_capacity(1);
+    params.push(entries[0].param);
+    let mut feats = Vec::with_capacity(1);
+    feats.push(String::new());
+    Ok(Lexicon::verif_from_parts(&gen::LEX_B_TRIE, copy_u32(&gen::LEX_B_POST), params, feats, lex_type))
+}
+
+#[cfg(kani)]
+pub fn user_param_pub(d: &Dictionary) -> WordParam {
+    user_param(d)
+}
+
+#[cfg(kani)]
+fn user_param(d: &Dictionary) -> WordParam {
+    match d.verif_user_lexicon() {
+        Some(u) => {
+            assert!(u.verif_num_words() == 1 && u.verif_lex_type() == LexType::User);
+            u.word_param(WordIdx { lex_type: LexType::User, word_id: 0 })
+        }
+        None => {
+            assert!(false, "no user lexicon installed");
+            WordParam::default()
+        }
+    }
+}
+
+#[cfg(kani)]
+fn mapped_dictionary(ml: &mut [u16; 3], mr: &mut [u16; 3]) -> Dictionary {
+    let (nr, nl) = (3, 3);
+    // retained mapper: old id -> new id, id 0 fixed, {1,2} permuted arbitrarily on each side
+    let sl: bool = kani::any();
+    let sr: bool = kani::any();
+    *ml = if sl { [0, 2, 1] } else { [0, 1, 2] };
+    *mr = if sr { [0, 2, 1] } else { [0, 1, 2] };
+    let mut vl = Vec::with_capacity(3);
+    let mut vr = Vec::with_capacity(3);
+    for i in 0..3 {
+        vl.push(ml[i]);
+        vr.push(mr[i]);
+    }
+    Dictionary::verif_from_parts(
+        lexicon_of(&L_A_AB, nr, nl, LexType::System),
+        None,
+        ConnectorWrapper::Matrix(sym_matrix(nr, nl)),
+        Some(ConnIdMapper::new(vl, vr)),
+        char_prop_of(&CATS_MIX),
+        unk_of(&[1, 1, 1], nr, nl),
+    )
+}
+
+#[cfg(kani)]
+fn load(d: Dictionary, csv: &[u8; 10]) -> Dictionary {
+    match d.reset_user_lexicon_from_reader(Some(&csv[..])) {
+        Ok(d) => d,
+        Err(_) => {
+            assert!(false, "a valid user lexicon was rejected");
+            unreachable!()
+        }
+    }
+}
+
+#[cfg(kani)]
+fn mapper_kept(d: &Dictionary, ml: &[u16; 3], mr: &[u16; 3]) {
+    match d.verif_mapper() {
+        Some(m) => {
+            for i in 0..3 {
+                assert!(m.left(i as u16) == ml[i] && m.right(i as u16) == mr[i], "the retained mapping changed");
+            }
+        }
+        None => assert!(false, "the retained mapping was dropped"),
+    }
+}
+
+//@ c08_replace_after_mapping {"desc":"on an id-mapped dictionary a user lexicon loaded from CSV and the one that replaces it are both translated with the retained mapping (rows are written with original ids), and the mapping stays in place","bounds":"dictionary system {a,ab}, 3x3 matrix, retained mapping = any pair of permutations of ids {1,2}; CSV rows \"b,1,2,3,u\" then \"b,2,1,7,v\" (concrete: parse_csv folds on concrete rows only)","symbolic":"the retained mapping, system parameters, matrix","functions":["Dictionary::reset_user_lexicon_from_reader","Lexicon::from_reader","Lexicon::parse_csv","Lexicon::map_connection_ids","Lexicon::verify"],"fs":5000,"unwind":24,"timeout":2400,"mem_gb":24,"stubs":["alloc::fmt::format","csv_core::Reader::new (NFA mode)","csv_core::Reader::build_dfa","Lexicon::from_entries (trie for {b} prebuilt natively)"]}
+#[cfg(kani)]
+#[kani::proof]
+#[kani::stub(alloc::fmt::format, crate::c06::stub_format)]
+#[kani::stub(csv_core::Reader::new, crate::csvstub::stub_reader_new)]
+#[kani::stub(csv_core::Reader::build_dfa, crate::csvstub::stub_build_dfa)]
+#[kani::stub(vibrato::verif_hooks::Lexicon::from_entries, stub_from_entries_b)]
+fn c08_replace_after_mapping() {
+    let (mut ml, mut mr) = ([0u16; 3], [0u16; 3]);
+    let d = mapped_dictionary(&mut ml, &mut mr);
+    let d = load(d, b"\x02,1,2,3,u\n");
+    let p = user_param(&d);
+    assert!(p.left_id == ml[1] && p.right_id == mr[2] && p.word_cost == 3, "the first user lexicon is not translated with the retained mapping");
+    let d = load(d, b"\x02,2,1,7,v\n");
+    let p = user_param(&d);
+    assert!(p.left_id == ml[2] && p.right_id == mr[1] && p.word_cost == 7, "the replacement user lexicon is not translated with the retained mapping");
+    mapper_kept(&d, &ml, &mr);
+    kani::cover!(ml[1] == 2 && mr[1] == 1);
+    core::mem::forget(d);
+}
+
+//@ c08_reload_after_clear {"desc":"on an id-mapped dictionary a user lexicon loaded after the previous one was cleared with None is translated with the retained mapping","bounds":"as c08_replace_after_mapping; history load \"b,1,2,3,u\", clear, load \"b,2,2,9,w\"","symbolic":"the retained mapping, system parameters, matrix","functions":["Dictionary::reset_user_lexicon_from_reader","Lexicon::from_reader","Lexicon::parse_csv","Lexicon::map_connection_ids","Lexicon::verify"],"fs":5000,"unwind":24,"timeout":2400,"mem_gb":24,"stubs":["alloc::fmt::format","csv_core::Reader::new (NFA mode)","csv_core::Reader::build_dfa","Lexicon::from_entries (trie for {b} prebuilt natively)"]}
+#[cfg(kani)]
+#[kani::proof]
+#[kani::stub(alloc::fmt::format, crate::c06::stub_format)]
+#[kani::stub(csv_core::Reader::new, crate::csvstub::stub_reader_new)]
+#[kani::stub(csv_core::Reader::build_dfa, crate::csvstub::stub_build_dfa)]
+#[kani::stub(vibrato::verif_hooks::Lexicon::from_entries, stub_from_entries_b)]
+fn c08_reload_after_clear() {
+    let (mut ml, mut mr) = ([0u16; 3], [0u16; 3]);
+    let d = mapped_dictionary(&mut ml, &mut mr);
+    let d = load(d, b"\x02,1,2,3,u\n");
+    let none: Option<&[u8]> = None;
+    let d = match d.reset_user_lexicon_from_reader(none) {
+        Ok(d) => d,
+        Err(_) => {
+            assert!(false, "clearing failed");
+            return;
+        }
+    };
+    assert!(d.verif_user_lexicon().is_none());
+    let d = load(d, b"\x02,2,2,9,w\n");
+    let p = user_param(&d);
+    assert!(p.left_id == ml[2] && p.right_id == mr[2] && p.word_cost == 9, "a user lexicon loaded after clearing is not translated with the retained mapping");
+    mapper_kept(&d, &ml, &mr);
+    kani::cover!(ml[2] == 1);
+    core::mem::forget(d);
 }
 
 //@ c08_twin {"expect":"fail","desc":"vacuity twin: claims the user word is never chosen","bounds":"as c08_user_equals_extended_system","symbolic":"costs, ids, matrix","functions":["Worker::tokenize"],"fs":2048,"unwind":7,"timeout":1200,"covers":"none"}
